@@ -46,6 +46,8 @@ def run(R):
         r5(R)
     if R.want("C02.R7"):
         r7(R)
+    if R.want("C02.R8"):
+        r8(R)
 
 
 def col(name, n=3):
@@ -261,3 +263,49 @@ def r7(R):
                 "peaks are masked by a test of the divisor other than '== 0': for detector flips / pixel-size signs that reverse the "
                 "computed normal every forward-scattered ray has a negative product and would be sent to pixel (0, 0), so the projection "
                 "no longer inverts compute_tth_eta")
+
+
+# --------------------------------------------------------------------------------------------------
+def r8(R):
+    """the detector -> (two-theta, eta) route subtracts the grain origin computed from (t_x, t_y, t_z) and omega; the 'no translation'
+    shortcut that skips the subtraction is only the same function when ALL the components handed to compute_grain_origins are zero:
+    every one of them must be compared with zero in the conjunction that guards the shortcut."""
+    import ast
+    from engine import pyfacts
+    from engine.pyfacts import src
+    R.rule("C02.R8", "compute_tth_eta_from_xyz (transform.py) and its numba copy: the shortcut that skips the grain-origin subtraction is guarded "
+                     "by every translation component that compute_grain_origins receives being == 0")
+    n = 0
+    for rel in ("ImageD11/transform.py", "ImageD11/sinograms/point_by_point.py"):
+        m = pyfacts.module(R, rel)
+        for q, fn in sorted(m.funcs.items()):
+            for st in ast.walk(fn):
+                if not isinstance(st, ast.If):
+                    continue
+                go = [c for x in st.orelse + st.body for c in ast.walk(x) if isinstance(c, ast.Call) and (pyfacts.dotted(c.func) or "").split(".")[-1] == "compute_grain_origins"]
+                direct = [c for c in go if pyfacts.containing_stmt(c) in st.orelse or pyfacts.containing_stmt(c) in st.body]
+                if not direct:
+                    continue
+                in_else = pyfacts.containing_stmt(direct[0]) in st.orelse
+                tvars = [a.id for a in direct[0].args[-3:] if isinstance(a, ast.Name)] + [k.value.id for k in direct[0].keywords if k.arg in ("t_x", "t_y", "t_z") and isinstance(k.value, ast.Name)]
+                if len(tvars) != 3:
+                    continue
+                zero = set()
+                nonzero = set()
+                for c in ast.walk(st.test):
+                    if isinstance(c, ast.Compare) and len(c.ops) == 1 and isinstance(c.left, ast.Name) and pyfacts.const_int(c.comparators[0]) == 0:
+                        (zero if isinstance(c.ops[0], ast.Eq) else nonzero).add(c.left.id) if isinstance(c.ops[0], (ast.Eq, ast.NotEq)) else None
+                    elif isinstance(c, ast.Compare) and len(c.ops) == 1 and isinstance(c.left, ast.Name) and isinstance(c.comparators[0], ast.Constant) \
+                            and c.comparators[0].value == 0 and isinstance(c.ops[0], (ast.Eq, ast.NotEq)):
+                        (zero if isinstance(c.ops[0], ast.Eq) else nonzero).add(c.left.id)
+                tested = zero if in_else else nonzero
+                if not (tested & set(tvars)):
+                    continue          # the branch is about something else
+                n += 1
+                missing = [t for t in tvars if t not in tested]
+                R.check(not missing, "C02.R8", rel, st.lineno, q, "shortcut test %s covers %s" % (src(st.test)[:70], tvars),
+                        "the grain-origin subtraction is skipped although %s may be non-zero (it is not compared with zero in the guard): a grain "
+                        "displaced only along that axis is treated as sitting at the origin, so two-theta / eta no longer invert the projection "
+                        "that compute_xyz_from_tth_eta made with the same translation" % ", ".join(missing))
+    R.shape(n >= 1, "C02.R8", "ImageD11/transform.py", "compute_tth_eta_from_xyz", "the translation shortcut in front of compute_grain_origins")
+    R.floor("C02.R8", 1)
